@@ -303,9 +303,13 @@ func shrinkAndWrite(bin, verif, work string, base RunSpec, r *RunResult, v Viola
 	if rf.Tapes == nil {
 		rf.Tapes = map[string][]uint32{}
 	}
-	os.MkdirAll(filepath.Join(verif, "replays"), 0o755)
+	rdir := filepath.Join(verif, "replays")
+	if d := os.Getenv("VERIF_REPLAY_DIR"); d != "" {
+		rdir = d
+	}
+	os.MkdirAll(rdir, 0o755)
 	name := fmt.Sprintf("%s-%d-%d%s.json", v.Prop, spec.Seed, spec.Index, planSuffix(r.Plan))
-	path := filepath.Join(verif, "replays", name)
+	path := filepath.Join(rdir, name)
 	b, _ := json.MarshalIndent(rf, "", " ")
 	if err := os.WriteFile(path, b, 0o644); err != nil {
 		return "", err
